@@ -12,6 +12,7 @@ use kanidm_proto::internal::{CreateRequest, DeleteRequest, Modify as ProtoModify
 use kanidm_proto::v1::Entry as ProtoEntry;
 use kanidmd_lib::event::ReviveRecycledEvent;
 use kanidmd_lib::prelude::*;
+use kanidmd_lib::valueset::from_value_iter;
 use kvc::srv::*;
 use kvc::util::*;
 use serde_json::{json, Map, Value as J};
@@ -75,12 +76,39 @@ pub fn proto_modlist(ml: &J) -> ProtoModifyList {
     ProtoModifyList::new_list(mods)
 }
 
+fn has_set(ml: &J) -> bool {
+    ml.as_array().map(|a| a.iter().any(|m| m["k"] == "set")).unwrap_or(false)
+}
+
+/// model modification list -> server modification list with real values (needed for Modify::Set, which the
+/// protocol modify list can not express: it is what SCIM PUT / batch callers build)
+pub fn internal_modlist(wr: &mut QueryServerWriteTransaction<'_>, ml: &J) -> Result<ModifyList<ModifyInvalid>, OperationError> {
+    let mut mods = Vec::new();
+    for m in ml.as_array().cloned().unwrap_or_default() {
+        let an = m["a"].as_str().unwrap_or("").to_string();
+        let attr = Attribute::from(an.as_str());
+        let vals: Vec<String> = strs(&m["v"]).iter().map(|v| proto_val(&an, v)).collect();
+        match m["k"].as_str().unwrap_or("") {
+            "pres" => for v in vals { mods.push(Modify::Present(attr.clone(), wr.clone_value(&attr, &v)?)); },
+            "rem" => for v in vals { mods.push(Modify::Removed(attr.clone(), wr.clone_partialvalue(&attr, &v)?)); },
+            "set" => {
+                let mut vs = Vec::new();
+                for v in vals { vs.push(wr.clone_value(&attr, &v)?); }
+                mods.push(Modify::Set(attr.clone(), from_value_iter(vs.into_iter())?));
+            }
+            _ => mods.push(Modify::Purged(attr.clone())),
+        }
+    }
+    Ok(ModifyList::new_list(mods))
+}
+
 /// execute one operation in its own (dropped) write transaction
 pub async fn do_op(qs: &QueryServer, at: u64, line: &J) -> J {
     let mut wr = qs.write(t(at)).await.expect("write");
     let op = line["op"].as_str().unwrap_or("").to_string();
     let mut o = Map::new();
     o.insert("a".into(), json!("op"));
+    if line.get("mods").is_some() { o.insert("mods".into(), line["mods"].clone()); }
     for k in ["op", "idd", "f", "ml", "new"] {
         o.insert(k.into(), if line.get(k).is_some() { line[k].clone() } else if k == "ml" { json!([]) } else { json!({"t":"none"}) });
     }
@@ -99,6 +127,29 @@ pub async fn do_op(qs: &QueryServer, at: u64, line: &J) -> J {
     let mut m: Vec<String> = vec![];
     let res = catch(|| -> Result<(), OperationError> {
         match op.as_str() {
+            "batch" => {
+                // per-entry modification lists addressed by uuid (BatchModifyEvent, as the SCIM PUT path builds it)
+                let mut modset = std::collections::BTreeMap::new();
+                let mut ors = Vec::new();
+                if let Some(mm) = line["mods"].as_object() {
+                    for (id, ml) in mm {
+                        let mlv = internal_modlist(&mut wr, ml)?.validate(wr.get_schema()).map_err(OperationError::SchemaViolation)?;
+                        modset.insert(un(id), mlv);
+                        ors.push(f_eq(Attribute::Uuid, PartialValue::Uuid(un(id))));
+                    }
+                }
+                let f = kanidmd_lib::filter_all!(f_or(ors)).validate(wr.get_schema()).map_err(OperationError::SchemaViolation)?;
+                m = be_candidates(&mut wr, &ident, &f).iter().map(|e| nm(e.get_uuid())).collect();
+                let be = BatchModifyEvent { ident: ident.clone(), modset };
+                wr.batch_modify(&be)
+            }
+            "modify" if has_set(&line["ml"]) => {
+                let f = Filter::from_rw(&ident, &ast_to_proto(&line["f"]), &mut wr)?;
+                let ml = internal_modlist(&mut wr, &line["ml"])?;
+                let me = ModifyEvent::from_internal_parts(ident.clone(), &ml, &f, &wr)?;
+                m = be_candidates(&mut wr, &ident, &me.filter).iter().map(|e| nm(e.get_uuid())).collect();
+                wr.modify(&me)
+            }
             "modify" => {
                 let req = ModifyRequest::new(ast_to_proto(&line["f"]), proto_modlist(&line["ml"]));
                 let me = ModifyEvent::from_message(ident.clone(), &req, &mut wr)?;
